@@ -85,7 +85,7 @@ Proof. eexists. split; vm_compute; reflexivity. Qed.
 
 (* drained states (partial): once every lock record has been freed, LockedCount = WaitCount = 0, no wheel / long table
    holds a reference and every key manager still present is idle.  (That no key manager is then present at all, i.e.
-   KeyCount = 0, needs "every manager has a record", which holds on every tested history but is not proved.) *)
+   KeyCount = 0, needs "every manager has a record": proved in C17_drain.v, C17_manager_has_record / C17_drained_complete.) *)
 Theorem C17_drained : forall t0 a acts, core acts -> store (fst (run (init_db t0 a) acts)) = [] ->
   n_locked (cnt (fst (run (init_db t0 a) acts))) = 0%Z /\ n_wait (cnt (fst (run (init_db t0 a) acts))) = 0%Z
   /\ wrefs (twheel (fst (run (init_db t0 a) acts))) = [] /\ wrefs (tlong (fst (run (init_db t0 a) acts))) = []
